@@ -598,6 +598,10 @@ def run_poly(case, ctx, tv, rng):
     def one(integer):
         if integer:
             s = int(rng.integers(-3, 13))
+            if rng.random() < 0.2:
+                # large integer shifts: (index + shift)^power beyond 2^63 must
+                # not be evaluated in wrapping integer arithmetic
+                s = int(rng.integers(10 ** 4, 10 ** 6))
         else:
             s = float(np.round(rng.uniform(-4, 12), int(rng.integers(0, 4))))
             if rng.random() < 0.3:
